@@ -105,3 +105,36 @@ def quiet_warnings():
     with warnings.catch_warnings():
         warnings.simplefilter("ignore")
         yield
+
+
+# ------------------------------------------------------------------------------------
+# watchdog: a library call that does not return is an outcome, not a reason for the check to hang
+
+HANG_SECONDS = int(os.environ.get("VF_HANG_SECONDS", "240"))
+
+
+class CaseHang(BaseException):
+    """Raised (by SIGALRM, in the worker's main thread) inside a case that does not return.
+
+    A BaseException, so that ``except Exception`` in the code under test does not swallow it; the
+    timer fires again every few seconds in case a bare ``except:`` did."""
+
+
+def _on_alarm(signum, frame):
+    raise CaseHang()
+
+
+@contextlib.contextmanager
+def watchdog(seconds=None):
+    import signal
+    import threading
+    if threading.current_thread() is not threading.main_thread():
+        yield
+        return
+    old = signal.signal(signal.SIGALRM, _on_alarm)
+    signal.setitimer(signal.ITIMER_REAL, seconds or HANG_SECONDS, 5.0)
+    try:
+        yield
+    finally:
+        signal.setitimer(signal.ITIMER_REAL, 0)
+        signal.signal(signal.SIGALRM, old)
